@@ -26,7 +26,7 @@ import (
 // ---------------------------------------------------------------- op vocabulary
 
 type enabJ struct {
-	K    string `json:"k"`    // fn | lvl | atomic
+	K    string `json:"k"`              // fn | lvl | atomic
 	Mask int    `json:"mask,omitempty"` // fn: bit (l+1) for l in -1..5
 	Lo   bool   `json:"lo,omitempty"`   // fn: value for l < -1
 	Hi   bool   `json:"hi,omitempty"`   // fn: value for l > 5
@@ -37,7 +37,7 @@ type enabJ struct {
 type fldJ struct {
 	Kind int `json:"kind,omitempty"` // 0 spy object marshaler · 1 namespace · 2 int · 3 string
 	Key  int `json:"key"`
-	Ref  int `json:"ref"` // -1: constant; else index of the mutable cell read when marshaled (kind 0)
+	Ref  int `json:"ref"`           // -1: constant; else index of the mutable cell read when marshaled (kind 0)
 	Val  int `json:"val,omitempty"` // value of an int / string field
 }
 
@@ -135,9 +135,10 @@ type spyTerm struct {
 func (s spyTerm) OnWrite(*zapcore.CheckedEntry, []zapcore.Field) { s.rec.add("t:" + s.name) }
 
 // flattenLine turns one JSON line of an io leaf into (logger name, field descriptors in emission order):
-//   k<id>{}            → "k<id>"          spy object (constant)
-//   k<id>{"v":n}       → "k<id>=n"        mutable marshaler, value at marshal time
-//   n<id>{ … }         → "n<id>{" …       namespace: everything after it is nested
+//
+//	k<id>{}            → "k<id>"          spy object (constant)
+//	k<id>{"v":n}       → "k<id>=n"        mutable marshaler, value at marshal time
+//	n<id>{ … }         → "n<id>{" …       namespace: everything after it is nested
 func flattenLine(p []byte) (string, []string) {
 	dec := json.NewDecoder(bytes.NewReader(p))
 	dec.UseNumber()
@@ -223,8 +224,12 @@ type world struct {
 	atomics  []zap.AtomicLevel
 	cells    []*int
 	obs      map[int]*observer.ObservedLogs
-	rejected []int // ids of IncreaseLevel wrappers that NewIncreaseLevelCore refused
+	rejected []int                            // ids of IncreaseLevel wrappers that NewIncreaseLevelCore refused
 	sinkFor  func(id int) zapcore.WriteSyncer // optional real destination behind an io leaf's spy sink
+	// bufferOdd: io leaves with an odd id get a BufferedWriteSyncer (tiny buffer: every entry is larger than it)
+	// BETWEEN the core and the spy, so that the spy observes what actually reaches the destination
+	bufferOdd bool
+	buffered  []*zapcore.BufferedWriteSyncer
 }
 
 func newWorld(atomics []int, cells []int) *world {
@@ -297,6 +302,11 @@ func (w *world) build(n *nodeJ) zapcore.Core {
 			sink := &spySink{id: n.ID, rec: w.rec}
 			if w.sinkFor != nil {
 				sink.inner = w.sinkFor(n.ID)
+			}
+			if w.bufferOdd && n.ID%2 == 1 {
+				b := &zapcore.BufferedWriteSyncer{WS: sink, Size: 2, FlushInterval: time.Hour}
+				w.buffered = append(w.buffered, b)
+				return zapcore.NewCore(jsonEnc(), b, w.enabler(n.En))
 			}
 			return zapcore.NewCore(jsonEnc(), sink, w.enabler(n.En))
 		}
@@ -517,14 +527,14 @@ func (s *specStore) on(e *enabJ, l int) bool {
 }
 
 type specPath struct {
-	leaf    int
-	io      bool
-	levels  []*enabJ // level filters on the path (own enabler and every effective IncreaseLevel)
-	incrs   []int    // ids of the IncreaseLevel wrappers on the path
-	drops   bool     // a dropping sampler lies on the path
-	hooks   []int    // entry hooks whose wrapped core contains the leaf
-	samps   []int
-	lazies  []int
+	leaf   int
+	io     bool
+	levels []*enabJ // level filters on the path (own enabler and every effective IncreaseLevel)
+	incrs  []int    // ids of the IncreaseLevel wrappers on the path
+	drops  bool     // a dropping sampler lies on the path
+	hooks  []int    // entry hooks whose wrapped core contains the leaf
+	samps  []int
+	lazies []int
 }
 
 // specPaths lists every leaf with what lies on its path; rejected IncreaseLevel wrappers are transparent.
